@@ -232,6 +232,34 @@ func registerNatives(e *Engine) {
 		}
 	}
 
+	// atomic.Value is implemented with unsafe casts of the interface words
+	n["(*sync/atomic.Value).Load"] = func(e *Engine, g *G, cs *callSite, a []Value) (Value, bool) {
+		return e.load(a[0].(*Pointer)).(*Struct).F[0], true
+	}
+	n["(*sync/atomic.Value).Store"] = func(e *Engine, g *G, cs *callSite, a []Value) (Value, bool) {
+		p := a[0].(*Pointer)
+		if a[1].(*Iface).T == nil {
+			e.goPanic("sync/atomic: store of nil value into Value")
+		}
+		e.store(&Pointer{O: p.O, Path: extendPath(p.Path, 0)}, a[1])
+		return nil, true
+	}
+	n["(*sync/atomic.Value).Swap"] = func(e *Engine, g *G, cs *callSite, a []Value) (Value, bool) {
+		p := a[0].(*Pointer)
+		old := e.load(p).(*Struct).F[0]
+		e.store(&Pointer{O: p.O, Path: extendPath(p.Path, 0)}, a[1])
+		return old, true
+	}
+	n["(*sync/atomic.Value).CompareAndSwap"] = func(e *Engine, g *G, cs *callSite, a []Value) (Value, bool) {
+		p := a[0].(*Pointer)
+		old := e.load(p).(*Struct).F[0]
+		if e.branch(e.equal(old, a[1])) {
+			e.store(&Pointer{O: p.O, Path: extendPath(p.Path, 0)}, a[2])
+			return TTrue, true
+		}
+		return TFalse, true
+	}
+
 	// ---- errors / fmt / log ----
 	n["fmt.Errorf"] = func(e *Engine, g *G, cs *callSite, a []Value) (Value, bool) {
 		return e.newError("fmt.Errorf: " + fmtString(a[0])), true
@@ -510,6 +538,15 @@ func (e *Engine) newError(msg string) Value {
 	return &Iface{T: types.NewPointer(e.errorStringT), V: &Pointer{O: o}}
 }
 
+// methodOrNil looks an exported method up in T's method set (nil if absent).
+func (e *Engine) methodOrNil(t types.Type, name string) *ssa.Function {
+	sel := e.prog.MethodSets.MethodSet(t).Lookup(nil, name)
+	if sel == nil {
+		return nil
+	}
+	return e.prog.MethodValue(sel)
+}
+
 func (e *Engine) errorsIs(g *G, err, target *Iface, depth int) *Term {
 	if depth > 8 {
 		return TFalse
@@ -528,13 +565,13 @@ func (e *Engine) errorsIs(g *G, err, target *Iface, depth int) *Term {
 			}
 		}
 	}
-	if m := e.prog.LookupMethod(err.T, nil, "Is"); m != nil {
+	if m := e.methodOrNil(err.T, "Is"); m != nil {
 		r := e.callSync(g, m, []Value{err.V, target}).(*Term)
 		if e.branch(r) {
 			return TTrue
 		}
 	}
-	if m := e.prog.LookupMethod(err.T, nil, "Unwrap"); m != nil {
+	if m := e.methodOrNil(err.T, "Unwrap"); m != nil {
 		if m.Signature.Results().Len() == 1 && types.Identical(m.Signature.Results().At(0).Type(), types.Universe.Lookup("error").Type()) {
 			inner := e.callSync(g, m, []Value{err.V}).(*Iface)
 			return e.errorsIs(g, inner, target, depth+1)
